@@ -628,7 +628,7 @@ func renderToks(toks []Tok, layout int) string {
 						sb.WriteByte(' ')
 					}
 				default:
-					sb.WriteString("\t\n ")
+					sb.WriteString("\t\r\n ")
 				}
 			}
 		}
